@@ -55,10 +55,13 @@ Inductive label :=
 | LTimeout                      (* the 10 s timer of WaitNewData fires *)
 | LDelete                       (* DeletePipe + ppipe.delete *)
 | LRestart                      (* clean stop + start; taken only in quiescent states *)
-| LRefuse (save : bool).        (* the destination refuses the record the worker is handing over (Journals.Write returns an
+| LRefuse (save : bool)         (* the destination refuses the record the worker is handing over (Journals.Write returns an
                                    error: e.g. the record with the provenance fields exceeds MaxRecordSize); save = does the
                                    worker save the position it reached before it sleeps (true = the code since the
                                    repair of worker.run, see code_saves_on_refused_write) *)
+| LDropEnq (i : nat).           (* the i-th writer in flight finds the WriteEvent channel full and SKIPS its notification
+                                   (a non-blocking send). The code's send blocks: the writer stays in flight until its
+                                   LEnq is scheduled; this label is the variant the code does not have *)
 
 Definition upd_log (s : st) l := {| log := l; cfrm := cfrm s; infl := infl s; queue := queue s; desc := desc s; wrk := wrk s; dst := dst s; alive := alive s |}.
 Definition upd_cfrm (s : st) c := {| log := log s; cfrm := c; infl := infl s; queue := queue s; desc := desc s; wrk := wrk s; dst := dst s; alive := alive s |}.
@@ -93,13 +96,18 @@ Definition on_write_event (s : st) (a b : nat) : st :=
   let '(d', w) := start_worker d in
   upd_dw s (Some d') (match w with Some ph => Some ph | None => wrk s end).
 
-(* ppipe.workerDone, under pp.lock *)
+(* ppipe.workerDone, under pp.lock: wCharged := false, then startWorker -- which starts nothing for a deleted pipe
+   (!pp.deleted in its condition; before that repair a deleted pipe with Pos < LastKnwnPos started worker after
+   worker, each leaving at once, until shutdown) *)
 Definition worker_done (s : st) : st :=
   match desc s with
   | None => upd_wrk s None
   | Some d =>
-      let '(d', w) := start_worker {| p_pos := p_pos d; p_lkp := p_lkp d; p_chg := false |} in
-      upd_dw s (Some d') w
+      let d0 := {| p_pos := p_pos d; p_lkp := p_lkp d; p_chg := false |} in
+      if alive s then
+        let '(d', w) := start_worker d0 in
+        upd_dw s (Some d') w
+      else upd_dw s (Some d0) None
   end.
 
 (* af: is the filter applied by the worker's iterator? (false = the code as it stands: fltF is
@@ -216,6 +224,7 @@ Definition step (af : bool) (tags : list (bytes * bytes)) (s : st) (l : label) :
                   end) None
       else s
   | LRefuse save => refuse_step af save s
+  | LDropEnq i => upd_infl s (remove_nth i (infl s))
   end.
 
 Fixpoint run (af : bool) (tags : list (bytes * bytes)) (s : st) (sched : list label) : st :=
@@ -293,6 +302,8 @@ Definition expected (tags : list (bytes * bytes)) (base : nat) (l : list event) 
 
 (* schedule predicates used as hypotheses *)
 Definition enq_in_order (l : label) : Prop := match l with LEnq i => i = 0 | _ => True end.
+(* every write that stored something sends its WriteEvent (partition.Service.onWriteEvent blocks on a full channel) *)
+Definition notifies (l : label) : Prop := match l with LDropEnq _ => False | _ => True end.
 Definition write_all_keep (l : label) : Prop := match l with LWrite b => forallb e_keep b = true | _ => True end.
 
 (* does the code apply the filter? flipped to true when proposed_fixes/C10-pipe-filter-not-applied lands *)
